@@ -14,10 +14,11 @@ open PnVerif.Mode PnVerif.ModeSpec
       first, and ncmpi_enddef clears both);
     * the driver word never has DEF and INDEP together; a read-only file is never in define mode
       and has no pending put; CREATE (driver) implies define mode entered by create (`old` unset);
+      the dispatcher's CREATE bit is never cleared (nothing reads it);
       `old` is set exactly in a define mode entered by redef — these are the `assert`s of
       ncmpio_abort / ncmpio__enddef;
     * pending bput requests are put requests and need the attached buffer. -/
-structure Inv (s : State) : Prop where
+structure ModeInv (s : State) : Prop where
   cl   : s.opened = false → s = closed
   rd   : s.opened = true → s.d.rdonly = s.n.rdonly
   df   : s.opened = true → s.d.indef = s.n.indef
@@ -25,6 +26,7 @@ structure Inv (s : State) : Prop where
   one  : s.opened = true → s.n.indef = true → s.n.indep = false
   ro   : s.opened = true → s.n.rdonly = true → s.n.indef = false ∧ s.nPut = 0
   cr   : s.opened = true → s.n.create = true → s.n.indef = true ∧ s.old = false
+  dcr  : s.opened = true → s.n.create = true → s.d.create = true
   od   : s.opened = true → s.old = true → s.n.indef = true
   rdf  : s.opened = true → s.n.indef = true → s.n.create = false → s.old = true
   bp   : s.nBput ≤ s.nPut
@@ -51,11 +53,11 @@ macro "mode_simp" : tactic => `(tactic|
         Drv.syncNumrecs, Drv.sync, Drv.wait, Drv.cancel, Drv.attach, Drv.detach, Drv.hdrWrite, Drv.putAtt,
         Drv.renameAtt, Drv.copyAtt, Drv.delAtt, Drv.rename, Drv.fillVarRec, Drv.post, sanityCheck, fillDispErr])
 
-theorem inv_closed : Inv closed := by constructor <;> simp [closed]
+theorem inv_closed : ModeInv closed := by constructor <;> simp [closed]
 
-theorem inv_created (r : Bool) : Inv (created r) := by constructor <;> simp [created, closed]
+theorem inv_created (r : Bool) : ModeInv (created r) := by constructor <;> simp [created, closed]
 
-theorem inv_opened (w r : Bool) : Inv (openedFile w r) := by
+theorem inv_opened (w r : Bool) : ModeInv (openedFile w r) := by
   constructor <;> simp [openedFile, closed]
 
 /-- The shape of an open reachable state: the eight configurations of the mode bits. -/
@@ -65,20 +67,20 @@ inductive Core : State → Prop
       Core { opened := true, d := ⟨dr, false, di, dc⟩, n := ⟨dr, false, di, false⟩, old := false, recDef := recDef,
              recCommit := recCommit, abuf := abuf, nGet := nGet, nPut := nPut, nBput := nBput }
   /-- define mode right after ncmpi_create -/
-  | defNew (di dc recDef recCommit abuf : Bool) (nGet nPut nBput : Nat) :
-      Core { opened := true, d := ⟨false, true, di, dc⟩, n := ⟨false, true, false, true⟩, old := false,
+  | defNew (di recDef recCommit abuf : Bool) (nGet nPut nBput : Nat) :
+      Core { opened := true, d := ⟨false, true, di, true⟩, n := ⟨false, true, false, true⟩, old := false,
              recDef := recDef, recCommit := recCommit, abuf := abuf, nGet := nGet, nPut := nPut, nBput := nBput }
   /-- define mode entered through ncmpi_redef (the dispatcher INDEP bit `di` may be stale) -/
   | defRe (di dc recDef recCommit abuf : Bool) (nGet nPut nBput : Nat) :
       Core { opened := true, d := ⟨false, true, di, dc⟩, n := ⟨false, true, false, false⟩, old := true,
              recDef := recDef, recCommit := recCommit, abuf := abuf, nGet := nGet, nPut := nPut, nBput := nBput }
 
-theorem core_of_inv (s : State) (h : Inv s) (ho : s.opened = true) : Core s := by
-  obtain ⟨cl, rd, df, ind, one, ro, cr, od, rdf, bp, ab⟩ := h
+theorem core_of_inv (s : State) (h : ModeInv s) (ho : s.opened = true) : Core s := by
+  obtain ⟨cl, rd, df, ind, one, ro, cr, dcr, od, rdf, bp, ab⟩ := h
   obtain ⟨opened, ⟨dr, dd, di, dc⟩, ⟨nr, nd, ni, nc⟩, old, recDef, recCommit, abuf, nGet, nPut, nBput⟩ := s
   simp only at ho
   subst ho
-  simp only [forall_const] at rd df ind one ro cr od rdf
+  simp only [forall_const] at rd df ind one ro cr dcr od rdf
   subst rd df
   cases dd with
   | false =>
@@ -104,7 +106,8 @@ theorem core_of_inv (s : State) (h : Inv s) (ho : s.opened = true) : Core s := b
     cases nc with
     | true =>
       have hold : old = false := (cr rfl).2
-      subst hold
+      have hdc : dc = true := dcr rfl
+      subst hold hdc
       exact Core.defNew ..
     | false =>
       have hold : old = true := rdf rfl rfl
